@@ -26,7 +26,7 @@ claim("C13", "exhaustive enumeration of integer inputs + exhaustive (thorough) /
       "All count lists/maxima/batch sizes/weight lists in the stated ranges are enumerated; for get_measurements_representing_distribution every RNG answer script within the bound is executed on the real code (prefix replay on fresh objects) and the shot count/support invariants checked.",
       "np.random.choice is the only randomness used (trapped otherwise); the double enforces numpy's own argument checks.",
       "DESIGN.md 4/C13")
-claim("C14", "exhaustive enumeration of call histories (no state merging) on every runner kind vs a reference model of validation, execution log, counters, results and tracker file",
+claim("C14", "exhaustive enumeration of call histories (no state merging) on every runner kind vs a reference model of validation, execution log, counters, results and tracker file; TLC state graph of an independent TLA+ counter model (incl. backend-failure actions) with EVERY edge replayed on the real classes",
       "Every history of <=2 (quick) / <=3 (thorough, core menu) calls from a menu of valid and invalid requests on 8 runner kinds; every call is compared with the model on exception, execution log, counters of each layer, results and the tracker's JSON file.",
       "Scripted RNG with default answers; zero-width circuits, non-gate circuits under the tracker and unbound circuits inside batches are outside the alphabet.",
       "DESIGN.md 4/C14")
@@ -40,7 +40,7 @@ claim("C05", "small-scope exhaustive enumeration of gates x parameter alphabet x
       "DESIGN.md 4/C05")
 claim("C06", "small-scope exhaustive enumeration of operations x ALL symbol maps over a 4-key domain x all splits of each map",
       "Every operation of the alphabet (parametric built-ins over an expression alphabet, wrappers, a custom gate with every pair of arguments incl. its own symbols swapped, MultiPhaseOperation) under every map {alpha,beta,c,d}->V: bound parameters, matrices at two assignments, free symbols, every two-step split; power/exp must refuse; 2-operation circuits.",
-      "No chained maps. Analytic entries compared at two assignments of the remaining symbols.",
+      "Maps whose values mention keys (shift, swap, chain) are judged against SIMULTANEOUS substitution (section cross_maps; D28); other Mapping kinds, twin symbols, copied symbol objects and out-of-domain custom entries have their own sections. Analytic entries compared at two assignments of the remaining symbols.",
       "DESIGN.md 4/C06")
 claim("C07", "small-scope exhaustive enumeration of modifier chains with a step-wise oracle on the implementation's own matrices; cut-off grids for algebraic chains over one-parameter gates",
       "All chains of depth <=2 (quick) / <=3 (thorough) with at most one transcendental modifier over 21 bases, plus transcendental-on-transcendental chains; each step judged against the definition applied to the previous step's numeric matrix, so every root cause is localised; arity, params, replace_params.",
